@@ -22,11 +22,15 @@ TWO = ('EAStorySwap', 'EAItemSwap')
 ONE = ('roStoryMove', 'roStorySend')
 
 
-def mk(op, k, tk, pretty, T=60):
+def mk(op, k, tk, pretty, T=60, repeats=False):
     level, has_t, has_src, has_new = OPS[op]
     P = {'op': op, 'k': k, 'tk': tk, 'pretty': pretty}
     sym = [('u%d' % j, 'str') for j in range(k)]
     strs = [n for n, _ in sym]
+    free = []
+    if repeats:
+        # listed IDs may repeat (the solver decides): the accessor must still list every mention, in order
+        free, strs = strs, []
     if has_t and tk == 'present':
         sym.append(('t', 'str'))
         strs.append('t')
@@ -34,8 +38,9 @@ def mk(op, k, tk, pretty, T=60):
         sym.append(('p0', 'str'))
         strs.append('p0')
     sym += [('c0', 'str'), ('c1', 'str')]
-    pre = str_pre(strs + ['c0', 'c1']) + distinct(strs)
-    cid = 'C20/%s/k%d%s/%s' % (op, k, ('/t-' + tk) if has_t else '', 'indented' if pretty else 'compact')
+    pre = str_pre(strs + free + ['c0', 'c1']) + distinct(strs)
+    cid = 'C20/%s/k%d%s/%s%s' % (op, k, ('/t-' + tk) if has_t else '', 'indented' if pretty else 'compact',
+                                 '/ids-may-repeat' if repeats else '')
     return Cell(pid=PID, cid=cid, harness='h_msgacc:msgacc_cell', params=P, sym=sym, pre=pre, stubs=('hash',),
                 timeout=T, cost=k)
 
@@ -53,6 +58,10 @@ def cells(tier):
                     if tier == 'quick' and pretty and (k == 2 and op not in TWO):
                         continue
                     out.append(mk(op, k, tk, pretty, T=T))
+    for op in TABLE:
+        if TABLE[op][3] == 'ids' and op not in ONE:
+            level, has_t, has_src, has_new = OPS[op]
+            out.append(mk(op, 2 if op in TWO else 3, 'present' if has_t else None, False, T=T, repeats=True))
     for op in ('roMetadataReplace', 'roReplace', 'roDelete', 'roReadyToAir', 'roCreate'):
         for pretty in (False, True):
             sym = [('u0', 'str'), ('u1', 'str'), ('c0', 'str'), ('r0', 'str')]
